@@ -1,6 +1,7 @@
 package influxql
 
 import (
+	"encoding/json"
 	"regexp"
 	"strings"
 	"time"
@@ -341,4 +342,31 @@ func vfH_C07_inline(tier int) {
 		vfAssert(vfDeepEqual(withParam, inlined), "C07/inline/parameter-equals-written-out-literal")
 	}
 	vfReach("C07_inline/ok")
+}
+
+// JSON numbers (encoding/json.Number, as a JSON decoder with UseNumber hands them over): the placeholder
+// either is rejected or carries exactly the number written, i.e. the result equals the written-out literal
+func vfH_C07_jsonnumber(tier int) {
+	nums := []string{"0", "123", "-45", "1.5", "-0.25", "9223372036854775807", "9223372036854775808", "9223372036854775809",
+		"18446744073709551615", "-9223372036854775808", "-9223372036854775809", "1e3", "abc", "", "12.", "1.0"}
+	n := nums[vfChoice(len(nums))]
+	var raw interface{} = json.Number(n)
+	if vfChoice(3) == 2 {
+		raw = map[string]interface{}{"integer": json.Number(n)}
+	}
+	tmpls := []string{"SELECT a FROM m WHERE k > $p", "SELECT a FROM m LIMIT $p", "SELECT f($p) FROM m"}
+	ti := vfChoice(len(tmpls))
+	text := tmpls[ti]
+	vfNote(text + " p=" + n)
+	got, err := c07Parse(text, map[string]interface{}{"p": raw})
+	if err != nil {
+		vfReach("C07_jsonnumber/rejected")
+		return
+	}
+	inlined, err2 := c07Parse(strings.Replace(text, "$p", n, 1), nil)
+	vfAssert(err2 == nil, "C07/jsonnumber/accepted-number-can-be-written-as-a-literal")
+	if err2 == nil {
+		vfAssert(vfDeepEqual(got, inlined), "C07/jsonnumber/parameter-equals-written-out-literal")
+	}
+	vfReach("C07_jsonnumber/ok")
 }
